@@ -60,7 +60,7 @@ func ParsePath(path string) (PropertyPath, error) {
 		return nil, err
 	}
 	// the grammar has no end-of-input assertion: whatever follows the longest valid prefix must be rejected here
-	if rest := strings.TrimSpace(path[p.pt.offset:]); rest != "" {
+	if rest := strings.TrimLeft(path[p.pt.offset:], " \n\t\r"); rest != "" { // only the grammar's own whitespace may follow
 		return nil, fmt.Errorf("invalid property path '%s': unexpected '%s' after '%s'", path, rest, path[:p.pt.offset])
 	}
 
